@@ -24,7 +24,7 @@ _XA_STUB = "xml_extract_attribute is a contract stub (C14/xattr.c): frees *attr/
 for _nm, _tier, _defs, _cm in (
         # FAILS on the unchanged tree: genuine defect (DESIGN 9 item 5): the lower-casing loop of lower_attr runs to strlen(name), past the
         # strlen(attr)+1 bytes allocated, whenever an attribute name is >= 2 bytes shorter than the requested name (e.g. id= vs "text").
-        ("c14_xattr", "thorough", [], "all attribute lists"),
+        ("c14_xattr", "quick", [], "all attribute lists"),   # failed on the pinned tree (genuine defect, repaired: known_findings.txt)
         ("c14_xattr_long", "quick", ["-DLONG_ATTRS"], "attribute names no more than 1 byte shorter than the requested name")):
     U(_nm, ["C14", "C01"], "h_xattr", ["C14/xattr.c", "C14/xml_tu.c"], [], plain=True, lib=("lib/libc_models.c",),
       defines=["-DKATTR=2", "-DANB=3", "-DVNB=1", "-DNAMEB=4"] + _defs, kind="bounded", tier=_tier,
